@@ -268,3 +268,19 @@ Definition gerr_prepend (k : Z) (e : gerror) : res gerror :=
    [drop off p] (after the bounds check of the slice expression, gslice_from) and cannot change
    its length; its final contents [sub] replace the tail of p *)
 Definition gsplice (buf : bytes) (off : Z) (sub : bytes) : bytes := (take (Z.to_N off) buf ++ sub)%list.
+
+(* len(m) for a Go map: the number of DISTINCT keys among the assignments *)
+Fixpoint alist_count {K V} (eqb : K -> K -> bool) (l : list (K * V)) : nat :=
+  match l with
+  | [] => O
+  | (k, _) :: r => if existsb (fun kv => eqb (fst kv) k) r then alist_count eqb r else S (alist_count eqb r)
+  end.
+Definition gmap_len {K V} (eqb : K -> K -> bool) (m : gmap K V) : Z :=
+  match m with None => 0 | Some l => Z.of_nat (alist_count eqb l) end.
+
+(* `for k, v := range m`: Go does not specify the enumeration order.  The generated definition
+   takes it as an explicit parameter ord : list K and looks v up in the map; the theorems assume
+   that ord enumerates each key of the map exactly once ([] for the nil or empty map). *)
+Definition gmap_keys {K V} (m : gmap K V) : list K := match m with None => [] | Some l => map fst l end.
+Definition gmap_order_ok {K V} (m : gmap K V) (ord : list K) : Prop :=
+  NoDup ord /\ forall k, In k ord <-> In k (gmap_keys m).
